@@ -12,6 +12,20 @@ Decided structurally:
   R4 no env leakage    the data written by those writers does not derive from environment reads (env::var,
                        current_dir, args)
 Not decided: determinism of user callbacks and of toml's formatter (a pure function of its input value).
+
+Deepening round (helpers in C20_helpers.py):
+  R1 sinks             the roots of R1 are not only the four spec types: every type handed to a serialiser (toml::to_string,
+                       Value::try_from, write_toml_file — generic arguments followed to the workspace callers) is checked
+                       the same way; a hash container serialised directly is reported at the sink
+  R2 implicit uses     a hash container handed as a whole to code that can observe its order (extend / from_iter / chain /
+                       Debug formatting / a serialiser / a generic workspace function) is an iteration site like `.iter()`;
+                       workspace functions returning a hash iterator (Env::iter) are iteration sources for their callers
+  R2 shape             an iteration over a triaged container may only be consumed element-wise and completely: adapters
+                       and consumers that select by position (take_while, map_while, skip, step_by, nth, last, zip, a lone
+                       next) make the set of handled elements depend on the hash order
+  R3 families          clocks also through `elapsed`, file time stamps / inode numbers, parent pid, RandomState, random
+                       names, addresses; and the same for every library function (builders, conversions in libcnb-data),
+                       not only what is reachable from the writers; threads in that code are reported as not decided
 """
 import re
 from .lib import serde_schema as S
@@ -29,6 +43,11 @@ TRIAGED = {
     'libcnb::layer_env::LayerEnv::write_to_layer_dir': 'process scopes: each element is written to its own directory env.launch/<key>; order only affects the sequence of independent files',
     'libcnb::layer::shared::replace_layer_exec_d_programs': 'exec.d programs: each element is copied to its own file exec.d/<key>',
     'libcnb::env::Env::iter': 'in-memory API handed to the buildpack author; nothing is written by libcnb from it',
+    "<&'a libcnb::env::Env as std::iter::IntoIterator>::into_iter": 'forwards Env::iter (the same in-memory API); a library function that consumes it is an iteration site of its own',
+}
+# serialisers whose output is not one of the property's files
+SINK_TRIAGED = {
+    'libcnb::exec_d::write_exec_d_program_output': 'the exec.d output protocol: written to file descriptor 3 by a running exec.d program at launch, not by detect/build',
 }
 # what was triaged per function is *which* hash container is iterated (not how the loop is spelled): a predicate
 # on the symbolic source of the iteration, in the function's own terms
@@ -40,6 +59,7 @@ TRIAGED_SOURCE = {
     'libcnb::layer_env::LayerEnv::write_to_layer_dir': ('self.process', _self_field('process')),
     'libcnb::layer::shared::replace_layer_exec_d_programs': ('the exec_d_programs parameter', lambda f, v: v[0] == 'param' and v[2] == 2),
     'libcnb::env::Env::iter': ('self.inner', _self_field('inner')),
+    "<&'a libcnb::env::Env as std::iter::IntoIterator>::into_iter": ('self / self.inner', lambda f, v: (v[0] == 'param' and v[2] == 0) or _self_field('inner')(f, v)),
 }
 
 
@@ -63,15 +83,15 @@ def _uses_whole(f, v, pred, depth=0):
     return any(_uses_whole(f, x, pred, depth + 1) for x in v if isinstance(x, tuple))
 
 
-def iteration_sources(sl, f, c):
+def iteration_sources(sl, f, c, arg=0):
     """the collections behind an iteration call (adapters, borrows and `.iter()` peeled; `chain` gives both sides;
     literal arrays / once(..) are ordered by construction and are left out)"""
     from .lib import iters
     from .lib.paths import strip
-    if not c.args:
+    if not c.args or arg >= len(c.args):
         return [('unknown', 'no receiver')]
     out = []
-    work = [strip(sl.operand(f, c.args[0]))]
+    work = [strip(sl.operand(f, c.args[arg]))]
     n = 0
     while work and n < 40:
         n += 1
@@ -119,7 +139,9 @@ def run(ctx, rep):
     for r, d in (('R1', 'no hash-ordered container inside serialised output types'), ('R2', 'every hash-container iteration is triaged'),
                  ('R3', 'no clock / pid / temp-dir / PRNG reachable from the output writers'), ('R4', 'written data does not derive from environment reads')):
         rep.rule(r, d)
-    rep.not_decided = ['determinism of user callbacks', 'toml\'s formatter being a pure function of the value (trusted)']
+    rep.not_decided = ['determinism of user callbacks', 'toml\'s formatter being a pure function of the value (trusted)',
+                       'the order in which fs::read_dir lists a directory (every reader inserts into a keyed container)']
+    from . import C20_helpers as H
     # ---- R1 --------------------------------------------------------------------------------------------
     closure = S.field_type_closure(prog, ROOTS)
     n = 0
@@ -134,11 +156,51 @@ def run(ctx, rep):
                 rep.check(not bad, 'R1', '%s.%s' % (t, f['name']), '%s:%s' % (a['file'], a['line']), '%s: %s' % (f['name'], f['ty'][:60]),
                           'output type %s has field %s: %s — its serialisation order differs between processes' % (t, f['name'], f['ty']))
     rep.floor('R1', 'fields', n)
+    # R1 continued: what is actually handed to a serialiser (not only the four spec types)
+    rows = H.serialised_types(prog, sl, lambda v: walk_own(prog, v))
+    per_fn, roots2, user = {}, [], 0
+    for sink, wf_, ty in rows:
+        sfn = sink.fn.path
+        if sfn in SINK_TRIAGED:
+            per_fn.setdefault(('triaged', sfn), [sink, []])
+            continue
+        if wf_ is None:
+            user += 1       # the type is chosen by the caller of a public generic function: user data
+            continue
+        ent = per_fn.setdefault(('checked', wf_.path), [sink, []])
+        if HASHY.search(ty) and ty[:200] not in ent[1]:
+            ent[1].append(ty[:200])
+        for m in H.ADT_PATH.findall(ty):
+            if m in prog.adts and m not in roots2:
+                roots2.append(m)
+    for (kind, fp), (sink, bad) in sorted(per_fn.items()):
+        if kind == 'triaged':
+            rep.holds('R1', 'sink/' + fp, sink.where(), 'serialiser outside the property\'s subject: ' + SINK_TRIAGED[fp], nontrivial=False)
+        else:
+            rep.check(not bad, 'R1', 'sink/' + fp, sink.where(), 'no hash-ordered container is serialised directly',
+                      'a hash-ordered container is handed to a serialiser (%s): the order of its entries in the written text differs between processes' % bad)
+    # (a literal minimum: build plan, launch.toml, store.toml and the three writers of layer content metadata)
+    n_checked = len([k for k in per_fn if k[0] == 'checked'])
+    if n_checked < 5 or len(roots2) < 4:
+        rep.unproven('R1', 'sinks', '-', 'only %d serialising functions with %d workspace types were found (>= 5 / >= 4 write the build plan, launch.toml, '
+                     'store.toml and layer content metadata today): the types that reach the output files are not known' % (n_checked, len(roots2)))
+    else:
+        rep.holds('R1', 'sinks', '-', '%d serialising functions hand %d workspace types to a serialiser (%d generic sinks take user types)' % (n_checked, len(roots2), user))
+    for t in S.field_type_closure(prog, roots2):
+        if t in closure or not t.startswith(('libcnb_data::', 'libcnb::', 'libcnb_common::')):
+            continue
+        a = prog.adts[t]
+        for v in a['variants']:
+            for f in v['fields']:
+                bad = HASHY.search(f['ty'])
+                rep.check(not bad, 'R1', '%s.%s' % (t, f['name']), '%s:%s' % (a['file'], a['line']), '%s: %s' % (f['name'], f['ty'][:60]),
+                          'serialised type %s has field %s: %s — its serialisation order differs between processes' % (t, f['name'], f['ty']))
     # ---- R2 --------------------------------------------------------------------------------------------
     # values are read with a slicer that also knows what a Vec grown in place holds (see C20_helpers.VecSlicer)
-    from . import C20_helpers as H
     sl = H.vec_slicer(prog)
     sites = {}
+    site_arg = {}       # id(Call) -> index of the argument that is the hash container (implicit uses)
+    ws_iters = H.workspace_hash_iterators(prog)
     for f in prog.fns.values():
         if f.crate not in ('libcnb', 'libcnb_data', 'libcnb_common') or f.derived:
             continue
@@ -148,8 +210,14 @@ def run(ctx, rep):
             hit = ITER_RX.search(full) or ITER_METHODS.search(nm) or \
                 (nm.endswith('IntoIterator>::into_iter') and HASHY.search(nm)) or \
                 (c.decl == 'std::iter::IntoIterator::into_iter' and c.args and HASHY.search(f.locals[(c.args[0].get('m') or c.args[0].get('c') or [0])[0]]['ty'] if isinstance(c.args[0], dict) and ('m' in c.args[0] or 'c' in c.args[0]) else ''))
+            # a workspace function handing out a hash iterator (Env::iter, <&Env as IntoIterator>) is the same source
+            hit = hit or (not c.indirect and bool(c.names() & ws_iters))
             if hit:
                 sites.setdefault(f.path, []).append(c)
+        # the container handed as a whole to code that can observe its order (extend, from_iter, chain, Debug, serialisers)
+        for c, i in H.implicit_hash_uses(prog, f, sites.get(f.path, [])):
+            sites.setdefault(f.path, []).append(c)
+            site_arg[id(c)] = i
     from . import layer_roles
     ROLES = layer_roles.roles(prog, sl)
     alias = {ROLES['REPLACE_EXECD']: 'libcnb::layer::shared::replace_layer_exec_d_programs'} if ROLES.get('REPLACE_EXECD') else {}
@@ -161,13 +229,13 @@ def run(ctx, rep):
         if reason:
             what, pred = TRIAGED_SOURCE[tfp]
             top = prog.fns[fp]
-            srcs = [v for c in cs for v in iteration_sources(sl, top, c)]
+            srcs = [v for c in cs for v in iteration_sources(sl, top, c, site_arg.get(id(c), 0))]
             bad = [vstr(v)[:60] for v in srcs if not pred(top, v)]
             rep.check(not bad, 'R2', fp if not bad else fp + '/new-iteration', cs[0].where(), 'hash iteration over %s only — triaged: %s' % (what, reason),
                       'a triaged function iterates a further hash container (%s; triaged: %s): re-triage whether its order can reach output bytes' % (bad, what))
         else:
             rep.violated('R2', fp, cs[0].where(), 'untriaged iteration over a hash-ordered container (%s): if its order can reach the bytes of an output file, '
-                         'two runs on identical inputs differ' % sorted({c.name for c in cs}))
+                         'two runs on identical inputs differ' % sorted({(c.name or '?') + (' <- the container as argument %d' % site_arg[id(c)] if id(c) in site_arg else '') for c in cs}))
     for fp in TRIAGED:
         if fp not in sites and fp in prog.fns:
             rep.holds('R2', 'stale-triage/' + fp, '-', 'triaged site no longer iterates a hash container', nontrivial=False)
@@ -212,9 +280,14 @@ def run(ctx, rep):
                 for st in E.sites(g):
                     if ex is None or st.bb in lp.body or any(st.bb == t or st.bb in g.reachable(t) for _, t in early):
                         partial.append('%s:%d' % (g.file, g.line))
-        rep.check(not partial, 'R2', 'triage-basis/complete/' + tfp.split('::')[-1], '%s:%d' % (top.file, top.line),
+        positional, undecided = H.hash_iteration_shape(prog, sl, E, top, lambda v, top=top, pred=pred: pred(top, v))
+        rep.check(not partial and not positional, 'R2', 'triage-basis/complete/' + tfp.split('::')[-1], '%s:%d' % (top.file, top.line),
                   'every element of %s is visited on every success path' % what,
-                  'the loop over %s can be left early with success: which elements were handled depends on the iteration order' % what)
+                  ('the loop over %s can be left early with success: which elements were handled depends on the iteration order' % what) if partial else
+                  ('the iteration over %s is consumed by position — %s: which elements are handled depends on the iteration order' % (what, '; '.join(positional[:3]))))
+        if undecided:
+            rep.unproven('R2', 'triage-basis/shape/' + tfp.split('::')[-1], '%s:%d' % (top.file, top.line),
+                         'an iterator over %s is consumed in a way not known to visit every element independently of the order: %s' % (what, '; '.join(undecided[:3])))
         rep.check(not whole, 'R2', 'triage-basis/element-wise/' + tfp.split('::')[-1], '%s:%d' % (top.file, top.line),
                   'every file effect uses %s element by element' % what, 'iteration order of %s can reach output bytes: %s' % (what, whole[:3]))
     # ---- R3 / R4 ---------------------------------------------------------------------------------------
@@ -225,8 +298,26 @@ def run(ctx, rep):
         for c in f.calls:
             if c.name in NONDET_NAMES or (c.name or '').startswith(('fastrand::', 'rand::', 'uuid::')):
                 bad.append('%s in %s (%s)' % (c.name, path, c.where()))
+            elif any(H.nondet_family(n_) for n_ in c.names()):
+                bad.append('%s [%s] in %s (%s)' % (c.name, next(H.nondet_family(n_) for n_ in sorted(c.names()) if H.nondet_family(n_)), path, c.where()))
     rep.check(not bad, 'R3', 'writers', '-', 'no nondeterminism source in %d writer-reachable functions' % len(fns), 'nondeterminism sources reachable from output writers: %s' % bad)
     rep.floor('R3', 'writer_functions', len(fns))
+    # the library code between the author's logic and the bytes (builders, conversions, trait impls in libcnb-data and
+    # libcnb) is as much part of "the same logic on identical inputs" as the writers are
+    lib = H.library_fns(prog, C12.OUT_OF_SUBJECT)
+    lbad = []
+    for path, f in sorted(lib.items()):
+        if path in fns:
+            continue
+        for c in f.calls:
+            fam = next((H.nondet_family(n_) for n_ in sorted(c.names()) if H.nondet_family(n_)), None)
+            if c.name in NONDET_NAMES or fam:
+                lbad.append('%s [%s] in %s (%s)' % (c.name, fam or 'listed', path, c.where()))
+    rep.check(not lbad and len(lib) >= 200, 'R3', 'library', '-', 'no nondeterminism source in the %d functions of libcnb / libcnb-data / libcnb-common' % len(lib),
+              'nondeterminism sources in library code whose results are handed to the writers: %s' % lbad[:4] if lbad else 'only %d library functions found' % len(lib))
+    sched = ['%s in %s (%s)' % (c.name, path, c.where()) for path, f in sorted(lib.items()) for c in f.calls if any(H.SCHEDULE_RX.search(n_) for n_ in c.names())]
+    if sched:
+        rep.unproven('R3', 'schedule', '-', 'library code runs on several threads (%s): whether the scheduler can influence output bytes is not decided' % sched[:3])
     leaks = []
     nw = 0
     for r in roots:
